@@ -175,7 +175,7 @@ WLock(s, o) ==
   /\ wr[s][o].pc = "lock" /\ lock[s][wr[s][o].tgt] = None
   /\ lock' = [lock EXCEPT ![s][wr[s][o].tgt] = WName(s, o)]
   /\ wr' = [wr EXCEPT ![s][o].pc = "cs"]
-  /\ UNCHANGED <<alive, str, tmp, rs, log, x, recv, h, nsa, issued, okEnd>>
+  /\ UNCHANGED <<alive, str, tmp, rs, log, tlock, x, recv, h, nsa, issued, okEnd>>
 
 \* Write, second critical section (stream.mu): store, then deliver
 WCS(s, o) ==
